@@ -156,10 +156,44 @@ def thin_shape(r, n=None):
     return r.choice([(1, n), (n, 1), (1, 1)])
 
 
+def corpus_cases():
+    """fixed inputs replayed on every run: the witnesses of the known findings and of the repaired defect (573b6cd2)"""
+    G = "+proj=geos +h=35785831.0 +lon_0=%d +a=6378169.0 +b=6356583.8 +units=m"
+    F = 5568748.0
+    LL = "+proj=longlat +datum=WGS84 +no_defs"
+    LAEA = "+proj=laea +lat_0=50 +lon_0=10 +ellps=WGS84"
+
+    def a(proj, shape, ext, kind):
+        return {"proj": proj, "shape": list(shape), "extent": [float(v) for v in ext], "kind": kind}
+    out = [
+        ("slicer", a(LL, (30, 30), (150, 30, 180, 60), "longlat"),
+         a("+proj=laea +lat_0=45 +lon_0=178 +ellps=WGS84", (10, 10), (-5e5, -5e5, 5e5, 5e5), "laea")),
+        ("slicer", a(G % 140, (64, 64), (-F, -F, F, F), "geos"), a(LL, (10, 10), (130, -30, 140, -20), "longlat")),
+        ("slicer", a(G % 0, (100, 100), (-F, -F, F, F), "geos"),
+         a("+proj=ortho +lat_0=40 +lon_0=7 +ellps=WGS84", (12, 12), (-750000, -750000, 750000, 750000), "ortho")),
+        ("slicer", a(G % 9, (22, 29), (-3341248.8, 0, 3341248.8, 5011873.2), "geos"),
+         a("+proj=stere +lat_0=90 +lon_0=-14 +lat_ts=60 +ellps=WGS84", (16, 16), (-155325, -11333918, 44675, -11133918), "stere_n")),
+        ("gas", a("+proj=laea +lat_0=60 +lon_0=10 +ellps=WGS84", (30, 30), (-1.5e6, -1.5e6, 1.5e6, 1.5e6), "laea"),
+         a(LL, (15, 40), (0, 55, 40, 70), "longlat")),
+    ]
+    # one-pixel-thick targets: non-overlap / AttributeError before 573b6cd2
+    src = a(LAEA, (100, 100), (-500000, -500000, 500000, 500000), "laea")
+    geos = a(G % 0, (128, 128), (-F, -F, F, F), "geos")
+    for h, w in ((1, 20), (20, 1), (1, 1)):
+        thin = a(LAEA, (h, w), (-100000, -100000, -100000 + w * 10000, -100000 + h * 10000), "laea")
+        out.append(("slicer", src, thin))
+        out.append(("slicer", geos, thin))
+        out.append(("slicer", src, a("+proj=stere +lat_0=90 +lon_0=5 +lat_ts=60 +ellps=WGS84", (h, w),
+                                     (200000, -4300000, 200000 + w * 10000, -4300000 + h * 10000), "stere_n")))
+        out.append(("slicer", a(LL, (40, 40), (0, 40, 20, 60), "longlat"), thin))    # units differ: no buffer
+    return [{"api": api, "src": s_, "tgt": t_, "cls": ("thin_" if min(t_["shape"]) == 1 else "") + "corpus", "crop": True}
+            for api, s_, t_ in out]
+
+
 def gen_pairs(ctx):
     """List of cases for the area APIs."""
     r = ctx.rng
-    cases = []
+    cases = corpus_cases()
 
     def add(api, src, tgt, cls, **kw):
         if not (well_formed(src) and well_formed(tgt)):
